@@ -7,10 +7,12 @@ FL(l) == [f |-> "l", l |-> l]
 FC(h) == [f |-> "cfg", h |-> h]
 FP(v) == [f |-> "p", ty |-> "s", v |-> v]
 FNil  == [f |-> "nil"]
+FDK(k1, k2, v) == [f |-> "dk", k1 |-> k1, k2 |-> k2, val |-> v]
 EmbedFragsOf(nh) ==
      { FM(("s" :> FC(j))) : j \in 2..nh } \cup { FM(("l" :> FL(<<FC(j)>>))) : j \in 2..nh } \cup { FC(j) : j \in 2..nh }
      \cup { [f |-> "cs", h |-> j, key |-> "s", sub |-> "zz", v |-> "9"] : j \in 2..nh }
 Embeds(fr) == IF fr.f \in {"cfg", "cs"} THEN fr.h
+              ELSE IF fr.f = "dk" THEN 0
               ELSE IF fr.f = "m" /\ DOMAIN fr.m # {} THEN
                    (LET key == CHOOSE x \in DOMAIN fr.m : TRUE IN
                      IF fr.m[key].f = "cfg" THEN fr.m[key].h
@@ -44,7 +46,10 @@ NamesCore == {Nm(<<Seg("a")>>), Nm(<<Seg("b")>>), Nm(<<Seg("a"), Seg("b")>>), Nm
               Nm(<<SegI("1", 1)>>), Nm(<<>>), NmNoSep("c.d")}
 IdxsCore  == {-1, 0, 2}
 ValsCore  == {[ty |-> "s", v |-> "2"]}
-AddrsCore == AddrsOf(NamesCore, {-1, 0, 1})
+\* the sweep also READS the two confusable spellings: the path c -> d (while "c.d" exists as one literal name, written
+\* without a separator) and the literal name "a.b" (while the path a -> b exists); neither is ever written, so no
+\* configuration holds both spellings of one flattened key
+AddrsCore == AddrsOf(NamesCore \cup {Nm(<<Seg("c"), Seg("d")>>), NmNoSep("a.b")}, {-1, 0, 1})
 
 \* list churn: writes past the end, removals, writes into the gap - on the root list and on a named list
 NamesChurn == {Nm(<<>>), Nm(<<Seg("l")>>)}
@@ -59,7 +64,10 @@ FragsMerge == { FM(("a" :> FM(("x" :> FP("1"))))),
                 FM(("a" :> FP("1"))),
                 FM(("a" :> FNil)),
                 FM(("l" :> FL(<<FM(("x" :> FP("1"))), FP("3")>>))),
-                FL(<<FP("7")>>) }
+                FL(<<FP("7")>>),
+                \* dotted keys with compound values (the intermediate node may or may not exist in the destination)
+                FDK("a", "x", FM(("zz" :> FP("1")))),
+                FDK("s", "t", FL(<<FP("1")>>)) }
 PolsAll    == {"default", "replace", "arrreplace", "append", "prepend"}
 PolsTwo    == {"default", "append"}
 PolsThree  == {"default", "append", "prepend"}
